@@ -15,7 +15,8 @@ CLAIM = dict(
     text="Theorems (any field, all shapes/ranks/sizes): EnergyResult * / + - act element-wise and keep energies, rank, "
          "transformations, smoothers, titles; + is defined exactly under the code's guards; a-b = a+(-1)b; "
          "distributivity, compatibility, unit, commutativity and associativity on the data; mul_array distributes over +; "
-         "VoidResult is neutral for + (both sides, also 0 and None on the right of an EnergyResult), absorbing for * / "
+         "VoidResult is neutral for + (both sides; 0, None and Void also on the right of k-resolved results and dictionaries, so "
+         "sum([...]) works), absorbing for * / "
          "transform, Void-x = (-1)x, x-Void = x; transform_tensor (rotation of every tensor axis, transposition / swap, "
          "conjugation, sign) is additive and commutes with every scalar fixed by the conjugation, hence "
          "transform(a)+transform(b) is defined and equals transform(a+b) for energy results and for k-resolved results; "
@@ -24,9 +25,8 @@ CLAIM = dict(
          "from_npz(as_dict(r)) returns the energies, data, shape, rank, both transformations with all four attributes, "
          "comment and titles of r (smoothers void, default save mode), Void round-trips to Void.",
     note="Trusted: Lean kernel + Mathlib; the harness; numpy element-wise arithmetic, matmul/transpose/swapaxes/conj, "
-         "np.savez_compressed/np.load/pickle and the file system.  Observations reported, not claimed: "
-         "Transform.__eq__ ignores swap_axes (proved: transform_eq_ignores_swap); K__Result + VoidResult and "
-         "ResultDict + VoidResult raise AttributeError; EnergyResult * numpy-integer raises TypeError.",
+         "np.savez_compressed/np.load/pickle and the file system.  Observation recorded as a note, not claimed: "
+         "Transform.__eq__ ignores swap_axes (proved: transform_eq_ignores_swap).",
 )
 TRUSTED = [
     "modelled: EnergyResult.__add__/__mul__/__truediv__/__sub__/mul_array/transform/as_dict/from_npz and the title "
@@ -45,8 +45,6 @@ RULE = ("results with 0-3 energy axes (odd and even lengths incl. 1), tensor ran
         "without inversion and time reversal; non-trivial = the operation involves at least one non-void result with "
         "more than one element; distinct = distinct protocol line (corr) or (operation, shapes, data) (oracle)")
 
-KF_KVOID = "C16-kresult-plus-void-raises"
-KF_NPINT = "C16-mul-numpy-integer-raises"
 
 
 # --------------------------------------------------------------------------------------------
@@ -396,6 +394,13 @@ def corr(ctx):
             ta, tb = k_toks(a), k_toks(b)
             with quiet():
                 emit(f"kadd {tail} {ta} {tb}", run_op(lambda: a + b, k_render), f"K+K[{how}]")
+            rhs = rng.choice(["Z", "NONE", "V"])
+            rv = {"Z": 0, "NONE": None, "V": V()}[rhs]
+            # `a + 0` returns a itself and rendering reads `.data`, which merges the block list: use a copy
+            a0 = W["KBandResult"]([d.copy() for d in a.data_list], transformTR=a.transformTR,
+                                  transformInv=a.transformInv)
+            with quiet():
+                emit(f"kaddrhs {tail} {rhs} {ta}", run_op(lambda: a0 + rv, k_render), f"K+{rhs}")
             c = rng.choice([2, -1, 0.5, 3, 0])
             emit(f"kmul {tail} {rats([c])} {ta}", run_op(lambda: a * c, k_render), "K*c")
             emit(f"kdiv {tail} {rats([c if c else 2])} {ta}", run_op(lambda: a / (c if c else 2), k_render), "K/c")
@@ -425,6 +430,10 @@ def corr(ctx):
             db = W["ResultDict"]({k: V() for k in kb})
             got = list((da + db).results)
             emit(f"rdkeys {','.join(ka) or '_'} {','.join(kb) or '_'}", ",".join(got) or "_", "ResultDict keys")
+            rhs = rng.choice(["Z", "NONE", "V"])
+            rv = {"Z": 0, "NONE": None, "V": V()}[rhs]
+            emit(f"rdkeysrhs {','.join(ka) or '_'} {rhs}",
+                 run_op(lambda: da + rv, lambda r: ",".join(r.results) or "_"), f"ResultDict+{rhs}")
 
     # ---- persistence -----------------------------------------------------------------------------------
     tmp = os.path.join(ctx.work, "npz")
@@ -721,7 +730,7 @@ def oracle(ctx, scale):
             with quiet():
                 if not same((a + b).transform(g).data, (ta + b.transform(g)).data, tol):
                     ctx.fail("K: transform does not distribute over +", dict(case, M=M, TR=TR))
-    kvoid_probe(ctx, W)
+    neutral_right_oracle(ctx, W, scale)
 
     # ---- dictionaries ----------------------------------------------------------------------------------
     for it in range(ctx.n(25, 400) * scale):
@@ -789,49 +798,75 @@ def oracle(ctx, scale):
                 ctx.fail("ResultDict + 0 / None is not the dictionary itself", case)
 
     save_load_oracle(ctx, W, gen, scale)
-    swap_probe(ctx, W)
+    notes_probe(ctx, W)
 
 
-def kvoid_probe(ctx, W):
-    """`K__Result + VoidResult`, `K__Result + 0` and `ResultDict + VoidResult` raise AttributeError (no guard for
-    the neutral element on the right).  Raised through ctx.fail only when known_findings.json carries the key."""
+def neutral_right_oracle(ctx, W, scale):
+    """0, None and the void result are neutral on the RIGHT of k-resolved results and dictionaries as well
+    (sum([...]) starts from 0), and numpy scalars are accepted as factors"""
     V = W["VoidResult"]
-    k = W["KBandResult"](np.ones((2, 2, 3)), transformTR=W["Transform"](), transformInv=W["Transform"]())
-    bad = []
-    for name, f in (("KBandResult + VoidResult", lambda: k + V()), ("KBandResult + 0", lambda: k + 0),
-                    ("ResultDict + VoidResult", lambda: W["ResultDict"]({"a": k}) + V())):
-        try:
+    rng = ctx.rng
+    gen = Gen(rng, W)
+    for it in range(ctx.n(30, 300) * scale):
+        k = rand_kres(rng, W)
+        LA = [d.copy() for d in k.data_list]
+        A = np.vstack(LA)
+        k2 = rand_kres(rng, W, nband=A.shape[1], rank=k.rank, tTR=k.transformTR, tInv=k.transformInv,
+                       cplx=np.iscomplexobj(A))
+        B = np.vstack([d.copy() for d in k2.data_list])
+        case = dict(shapeA=[list(d.shape) for d in LA], rank=int(k.rank), A=A)
+        ctx.case(signature=("neutral", A.shape, A.tobytes()), nontrivial=True)
+        ctx.count("oracle.neutral-right")
+        with ctx.attempt("neutral element on the right", case):
             with quiet():
-                r = f()
-            if isinstance(r, V):
-                bad.append(name + " returned void")
-        except Exception as e:  # noqa
-            bad.append(f"{name} raises {type(e).__name__}")
-    ctx.case(signature=("kvoid",), nontrivial=True)
-    if bad:
-        msg = "the void result / 0 is not neutral on the right of: " + "; ".join(bad)
-        if KF_KVOID in ctx.known:
-            ctx.fail(msg, dict(what=bad), kf=KF_KVOID)
-        else:
-            ctx.note("observation (not raised): " + msg)
-    a = W["EnergyResult"](np.arange(2.), np.ones(2), transformTR=W["Transform"](), transformInv=W["Transform"]())
+                for name, r in (("k + Void", k + V()), ("k + 0", k + 0), ("k + None", k + None), ("0 + k", 0 + k),
+                                ("Void + k", V() + k)):
+                    if isinstance(r, V) or not same(r.data, A) or int(r.rank) != int(k.rank):
+                        ctx.fail(f"{name} is not k", case)
+                s = sum([k, k2])
+                if not same(s.data, np.vstack([A, B])):
+                    ctx.fail("sum([k1, k2]) is not the k-points of k1 followed by those of k2", dict(case, B=B))
+                e = gen.eres()
+                d = W["ResultDict"]({"tab": k, "e": e, "v": V()})
+                for name, r in (("d + Void", d + V()), ("d + 0", d + 0), ("d + None", d + None), ("Void + d", V() + d),
+                                ("sum([d])", sum([d]))):
+                    if list(r.results) != ["tab", "e", "v"] or not same(r.results["tab"].data, A) \
+                            or not same(r.results["e"].data, e.data) or not isinstance(r.results["v"], V):
+                        ctx.fail(f"{name} is not the dictionary d", case)
+            # numpy scalars as factors
+            a = gen.eres()
+            D = a.data.copy()
+            for c in (np.int64(rng.randint(-5, 5)), np.int32(3), np.float64(-1.5), np.float32(0.25), np.uint8(2)):
+                for name, f in ((f"a * {type(c).__name__}", lambda: a * c), (f"{type(c).__name__} * a (reflected)", lambda: a.__rmul__(c))):
+                    r = f()
+                    if not same(r.data, D * c):
+                        ctx.fail(f"{name}: data are not a.data * {c}", dict(shape=list(D.shape), c=float(c)))
+                if c != 0 and not same((a / c).data, D / c, tol=8 * 2.0 ** -52 * np.abs(D / c).max()):
+                    ctx.fail(f"a / {type(c).__name__}({c}) is not a.data / c", dict(shape=list(D.shape), c=float(c)))
+            if not same((k * np.int64(3)).data, A * 3):
+                ctx.fail("k * np.int64(3) is not k.data * 3", case)
+
+
+def notes_probe(ctx, W):
+    """behaviours outside the property statement, recorded as notes only"""
+    if W["Transform"](swap_axes=(1, 2)) == W["Transform"]():
+        ctx.note("observation: Transform.__eq__ ignores swap_axes, so results whose transformations differ only there "
+                 "pass the compatibility check of + (theorem transform_eq_ignores_swap); no calculator uses swap_axes")
     try:
-        a * np.int64(2)
-    except TypeError:
-        msg = "EnergyResult * numpy.int64 raises TypeError (only python int / float are accepted)"
-        if KF_NPINT in ctx.known:
-            ctx.fail(msg, dict(), kf=KF_NPINT)
-        else:
-            ctx.note("observation (not raised): " + msg)
-
-
-def swap_probe(ctx, W):
-    """Transform.__eq__ ignores swap_axes: two results whose TR transformations differ only there can be added and
-    the sum carries the left one (theorem transform_eq_ignores_swap).  No calculator uses swap_axes."""
-    t1, t2 = W["Transform"](swap_axes=(1, 2)), W["Transform"]()
-    if t1 == t2:
-        ctx.note("observation (not raised): Transform.__eq__ ignores swap_axes, so results whose transformations differ "
-                 "only in swap_axes pass the compatibility check of +")
+        g1 = W["GaussianSmoother"](np.arange(3.), 1.0)
+        g2 = W["GaussianSmoother"](np.arange(5.), 1.0)
+        g1 == g2
+    except ValueError:
+        ctx.note("observation: AbstractSmoother.__eq__ raises ValueError for energy grids of different length")
+    except Exception:  # noqa
+        pass
+    try:
+        a = W["EnergyResult"](np.arange(2.), np.ones(2), transformTR=W["Transform"](), transformInv=W["Transform"](),
+                              comment="kept?")
+        if a.mul_array(np.ones(2), axes=0).comment != "kept?":
+            ctx.note("observation: EnergyResult.mul_array does not keep the comment")
+    except Exception:  # noqa
+        pass
 
 
 COMMENTS_IO = ["undocumented", "", "two words", "line one\nline two", "unicode: Ω é ∂/∂k", " lead/trail ",
